@@ -12,7 +12,7 @@
 From Coq Require Import List NArith PArith Bool Arith Lia FMapPositive.
 From OxiVerif Require Import DD.Table DD.TableExtra DD.TableProofs DD.FamSpec DD.FamSpecProofs
   DD.ZbddOps DD.ZbddOpsProofs
-  Mgr.LevelSwap Mgr.LevelSwapProofs Mgr.LevelSwapOrder Mgr.LevelSwapZ Mgr.LevelSwapZProofs Mgr.LevelSwapZChain
+  Mgr.LevelSwap Mgr.LevelSwapProofs Mgr.LevelSwapOrder Mgr.LevelSwapZ Mgr.LevelSwapZSub Mgr.LevelSwapZProofs Mgr.LevelSwapZChain
   Mgr.LevelSwapZOrder.
 Import ListNotations.
 
@@ -117,4 +117,63 @@ Proof.
   destruct (set_var_order_model_z_correct s order B Hnd Hr) as [B' _].
   exists F, F'. split; [exact EF|]. split; [exact EF'|].
   apply (fam_same_image s _ _ _ F F' (zo_wf s B) (zo_kind s B) (zo_wf _ B') (zo_kind _ B') EF EF' Hall).
+Qed.
+
+(** ** statements as they appear in Props/C08.v *)
+
+Theorem zc_handles_both : forall s i,
+  ZbddOK s -> S i < nlevels s ->
+  s_handles (level_swap_zc s i) = s_handles s
+  /\ forall h, In h (s_handles s) -> ref_ok (level_swap_zc s i) (eref (snd h)).
+Proof. intros s i B Hi. exact (conj (zc_handles s i B Hi) (zc_handle_ok s i B Hi)). Qed.
+
+Theorem zc_untouched_iff : forall s i,
+  ZbddOK s -> S i < nlevels s ->
+  forall id nd, nlevel nd <> i -> nlevel nd <> S i ->
+    (find_node s id = Some nd <-> find_node (level_swap_zc s i) id = Some nd).
+Proof.
+  intros s i B Hi id nd A C. split; intros E;
+    [exact (zc_untouched s i B Hi id nd E A C) | exact (zc_untouched_rev s i B Hi id nd E A C)].
+Qed.
+
+Theorem zchain_drop_all : forall s, ZbddOK s ->
+  ZbddOK (zchain_drop s)
+  /\ s_l2v (zchain_drop s) = s_l2v s /\ s_v2l (zchain_drop s) = s_v2l s /\ s_handles (zchain_drop s) = s_handles s
+  /\ (forall id nd, find_node (zchain_drop s) id = Some nd -> find_node s id = Some nd)
+  /\ (forall h, In h (s_handles s) -> ref_ok (zchain_drop s) (eref (snd h)))
+  /\ (forall e a, ref_ok (zchain_drop s) (eref e) -> eval_vars (zchain_drop s) e a = eval_vars s e a)
+  /\ (forall id nd, find_node s id = Some nd -> find_node (zchain_drop s) id = None ->
+        (exists x, nchildren nd = [x; x])
+        /\ (forall k kd e, find_node (zchain_drop s) k = Some kd -> In e (nchildren kd) -> eref e <> RN id)
+        /\ (forall h, In h (s_handles s) -> eref (snd h) <> RN id)).
+Proof.
+  intros s B. pose proof (zchain_drop_sub s (zo_wf s B)) as X.
+  split; [exact (zchain_drop_ok s B)|]. split; [exact (sub_l2v _ _ X)|]. split; [exact (sub_v2l _ _ X)|].
+  split; [exact (sub_handles _ _ X)|]. split; [exact (sub_nodes _ _ X)|].
+  split; [intros h Hh; apply (sub_hok _ _ X); rewrite (sub_handles _ _ X); exact Hh|].
+  split; [intros e a Ok; exact (eval_vars_sub s _ e a X (zo_kind s B) Ok)|].
+  intros id nd. exact (zchain_drop_removed s id nd (zo_wf s B)).
+Qed.
+
+Theorem level_swap_z_handles_both : forall s i,
+  ZbddOK s -> S i < nlevels s ->
+  s_handles (level_swap_z s i) = s_handles s
+  /\ forall h, In h (s_handles s) -> survives s i (snd h) /\ ref_ok (level_swap_z s i) (eref (snd h)).
+Proof.
+  intros s i B Hi. split; [exact (level_swap_z_handles s i B Hi)|].
+  intros h Hh. exact (conj (survives_handle s i B Hi h Hh) (level_swap_z_handle_ok s i B Hi h Hh)).
+Qed.
+
+Theorem set_var_order_model_z_fam_all : forall s order h,
+  ZbddOK s -> NoDup order -> Forall (fun v => v < nlevels s) order -> In h (s_handles s) ->
+  exists F F', fam_of s (eref (snd h)) = Some F /\ fam_of (set_var_order_model_z s order) (eref (snd h)) = Some F'
+    /\ (forall a, fmem (set_levels (set_var_order_model_z s order) a) F' = fmem (set_levels s a) F)
+    /\ (forall S, In S F -> In (set_levels (set_var_order_model_z s order) (vset s S)) F')
+    /\ (forall S', In S' F' -> In (set_levels s (vset (set_var_order_model_z s order) S')) F).
+Proof.
+  intros s order h B Hnd Hr Hh.
+  destruct (set_var_order_model_z_fam s order B Hnd Hr h Hh) as [F [F' [EF [EF' Hall]]]].
+  destruct (set_var_order_model_z_correct s order B Hnd Hr) as [B' _].
+  exists F, F'. split; [exact EF|]. split; [exact EF'|]. split; [exact Hall|].
+  exact (fam_same_image s _ _ _ F F' (zo_wf s B) (zo_kind s B) (zo_wf _ B') (zo_kind _ B') EF EF' Hall).
 Qed.
